@@ -1,13 +1,14 @@
 import CedarVerif.Lemmas.PartialSound3
+import CedarVerif.Lemmas.JsonBasic
 /- Soundness of the first pass of `pinterp` on the fragment `Frag`, by induction on the fragment derivation. -/
 namespace Cedar
 
 /-- what the first-pass outcome `x` of an expression whose concrete result is `y` must satisfy -/
-def Sound (σ : Mapper) (req : Request) (es : Entities) (env : SlotEnv) (y : Result Value) (x : PRes) : Prop :=
+def Sound (σ : Mapper) (req : Request) (es : Entities) (env : SlotEnv) (nr : Prop) (y : Result Value) (x : PRes) : Prop :=
   match x with
   | .val v => y = .ok v ∧ v.DRT
   | .err _ => ∃ c', y = .error c'
-  | .res r => NotRecord r ∧ TypedOK r y ∧ ∀ n', Sem (pinterp σ (.ofConcrete req) (.ofConcrete es) env n' r) y
+  | .res r => (nr → NotRecord r) ∧ TypedOK r y ∧ ∀ n', Sem (pinterp σ (.ofConcrete req) (.ofConcrete es) env n' r) y
   | .fuel => True
   | .panic => True
 
@@ -71,8 +72,8 @@ theorem applyBinary_DRT {es : Entities} {op : BinaryOp} (hop : op.storeFree = tr
     cases h1 : v1.asSet <;> simp [h1] at h
     cases h2 : v2.asSet <;> simp [h2] at h; subst h; trivial
 
-theorem sound_ofResult {σ : Mapper} {req : Request} {es : Entities} {env : SlotEnv} {y : Result Value}
-    (h : ∀ w, y = .ok w → w.DRT) : Sound σ req es env y (PRes.ofResult y) := by
+theorem sound_ofResult {σ : Mapper} {req : Request} {es : Entities} {env : SlotEnv} {nr : Prop} {y : Result Value}
+    (h : ∀ w, y = .ok w → w.DRT) : Sound σ req es env nr y (PRes.ofResult y) := by
   cases y with
   | ok v => exact ⟨rfl, h v rfl⟩
   | error c => exact ⟨c, rfl⟩
@@ -97,13 +98,13 @@ theorem best_none {xb : PRes} {b : Expr} (h : Best xb b = none) : xb = .fuel ∨
 section
 variable {σ : Mapper} {req : Request} {es : Entities} {env : SlotEnv}
 
-theorem sound_stuck {y : Result Value} {x : PRes} (h : x = .fuel ∨ x = .panic) : Sound σ req es env y x := by
+theorem sound_stuck {nr : Prop} {y : Result Value} {x : PRes} (h : x = .fuel ∨ x = .panic) : Sound σ req es env nr y x := by
   rcases h with h | h <;> subst h <;> trivial
 
 theorem sem_best {b : Expr} (hfb : Frag b)
     (ih : ∀ (m0 : Mapper) (preq : PRequest) (n : Nat), Concretizes σ preq req →
-      Sound σ req es env (evaluate req es env b) (pinterp m0 preq (.ofConcrete es) env n b))
-    {xb : PRes} (hs : Sound σ req es env (evaluate req es env b) xb) {X : Expr} (hB : Best xb b = some X) :
+      Sound σ req es env (NR b) (evaluate req es env b) (pinterp m0 preq (.ofConcrete es) env n b))
+    {nr : Prop} {xb : PRes} (hs : Sound σ req es env nr (evaluate req es env b) xb) {X : Expr} (hB : Best xb b = some X) :
     ∀ n', Sem (pinterp σ (.ofConcrete req) (.ofConcrete es) env n' X) (evaluate req es env b) := by
   cases xb with
   | val v =>
@@ -129,5 +130,481 @@ theorem sem_best {b : Expr} (hfb : Frag b)
   | panic => simp [Best] at hB
 
 end
+
+
+/-! ### store-dependent operators, sets, lists of sub-expressions -/
+
+theorem applyBinary_DRT' {es : Entities} (hstore : StoreDRT es) {op : BinaryOp} {v1 v2 w : Value}
+    (h : applyBinary es op v1 v2 = .ok w) : w.DRT := by
+  cases hop : op.storeFree with
+  | true => exact applyBinary_DRT hop h
+  | false =>
+    cases op <;> simp [BinaryOp.storeFree] at hop <;> simp only [applyBinary, bind, Except.bind] at h
+    · cases h1 : v1.asEntity <;> simp only [h1] at h
+      · cases h
+      · split at h
+        · cases h; trivial
+        · split at h
+          · cases h
+          · cases h; trivial
+        · cases h
+    · cases h1 : v1.asEntity <;> simp only [h1] at h
+      · cases h
+      · cases h2 : v2.asString <;> simp only [h2] at h
+        · cases h
+        · rename_i u t
+          cases hf : es.find? u <;> simp only [hf] at h
+          · cases h
+          · rename_i d
+            cases hl : lookupKV d.tags t <;> simp only [hl] at h
+            · cases h
+            · cases h; exact (hstore u d hf).2 t _ hl
+    · cases h1 : v1.asEntity <;> simp only [h1] at h
+      · cases h
+      · cases h2 : v2.asString <;> simp only [h2] at h
+        · cases h
+        · split at h <;> (cases h; trivial)
+
+/-- no two elements equal modulo `Value.beq` -/
+def NoDupB : List Value → Prop
+  | [] => True
+  | v :: vs => Value.elem v vs = false ∧ NoDupB vs
+
+theorem mkSet_noDup (vs : List Value) : NoDupB (Value.mkSet vs) := by
+  induction vs with
+  | nil => trivial
+  | cons v vs ih =>
+    simp only [Value.mkSet]
+    cases he : Value.elem v (Value.mkSet vs) with
+    | true => simpa using ih
+    | false => simp only [Bool.false_eq_true, if_false]; exact ⟨he, ih⟩
+
+theorem mkSet_of_noDup {ws : List Value} (h : NoDupB ws) : Value.mkSet ws = ws := by
+  induction ws with
+  | nil => rfl
+  | cons w ws ih =>
+    simp only [Value.mkSet, ih h.2, h.1, Bool.false_eq_true, if_false]
+
+theorem mkSet_idem (vs : List Value) : Value.mkSet (Value.mkSet vs) = Value.mkSet vs :=
+  mkSet_of_noDup (mkSet_noDup vs)
+
+theorem mem_mkSet {w : Value} {vs : List Value} (h : w ∈ Value.mkSet vs) : w ∈ vs := by
+  induction vs with
+  | nil => simp [Value.mkSet] at h
+  | cons v vs ih =>
+    simp only [Value.mkSet] at h
+    split at h
+    · exact List.mem_cons_of_mem _ (ih h)
+    · rcases List.mem_cons.mp h with rfl | h
+      · exact List.mem_cons_self ..
+      · exact List.mem_cons_of_mem _ (ih h)
+
+theorem collect_toExprList (f : Expr → PRes) (ws : List Value)
+    (h : ∀ w, w ∈ ws → f w.toExpr = .fuel ∨ f w.toExpr = .val w) :
+    collectPV f (Value.toExprList ws) = .error .fuel ∨
+    collectPV f (Value.toExprList ws) = .ok (ws.map PartialValue.value) := by
+  induction ws with
+  | nil => right; rfl
+  | cons w ws ih =>
+    simp only [Value.toExprList, collectPV]
+    rcases h w (List.mem_cons_self ..) with hw | hw
+    · left; rw [hw]
+    · rw [hw]
+      rcases ih (fun w' hw' => h w' (List.mem_cons_of_mem _ hw')) with hc | hc
+      · left; rw [hc]; rfl
+      · right; rw [hc]; rfl
+
+/-- a canonical set of round-tripping values round-trips -/
+theorem RT_set {ws : List Value} (h : ∀ w, w ∈ ws → RT w) (hid : Value.mkSet ws = ws) : RT (.set ws) := by
+  intro m req es env n
+  cases n with
+  | zero => left; simp [pinterp]
+  | succ n =>
+    simp only [Value.toExpr, pinterp]
+    rcases collect_toExprList (pinterp m req es env n) ws (fun w hw => h w hw m req es env n) with hc | hc
+    · left; rw [hc]
+    · right; rw [hc]; simp [splitPV_values, hid]
+
+theorem evaluateList_error_of_mem {req : Request} {es : Entities} {env : SlotEnv} {xs : List Expr} {x : Expr}
+    (hx : x ∈ xs) {c : ErrClass} (he : evaluate req es env x = .error c) : ∃ c', evaluateList req es env xs = .error c' := by
+  induction xs with
+  | nil => cases hx
+  | cons y ys ih =>
+    simp only [evaluateList]
+    rcases List.mem_cons.mp hx with rfl | hx
+    · rw [he]; exact ⟨c, rfl⟩
+    · cases evaluate req es env y with
+      | error c1 => exact ⟨c1, rfl⟩
+      | ok v =>
+        obtain ⟨c', hc'⟩ := ih hx
+        rw [hc']; exact ⟨c', rfl⟩
+
+theorem splitPV_inl {pvs : List PartialValue} {vs : List Value} (h : splitPV pvs = .inl vs) :
+    pvs = vs.map PartialValue.value := by
+  induction pvs generalizing vs with
+  | nil => simp [splitPV] at h; subst h; rfl
+  | cons pv pvs ih =>
+    cases pv with
+    | residual e => simp [splitPV] at h
+    | value v =>
+      simp only [splitPV] at h
+      cases hs : splitPV pvs with
+      | inr es => rw [hs] at h; cases h
+      | inl ws => rw [hs] at h; cases h; simp [ih hs]
+
+theorem splitPV_inr {pvs : List PartialValue} {rs : List Expr} (h : splitPV pvs = .inr rs) :
+    rs = pvs.map PartialValue.asExpr := by
+  induction pvs generalizing rs with
+  | nil => simp [splitPV] at h
+  | cons pv pvs ih =>
+    cases pv with
+    | residual e => simp only [splitPV] at h; cases h; rfl
+    | value v =>
+      simp only [splitPV] at h
+      cases hs : splitPV pvs with
+      | inl ws => rw [hs] at h; cases h
+      | inr es => rw [hs] at h; cases h; simp [PartialValue.asExpr, ih hs]
+
+section
+variable (σ : Mapper) (req : Request) (es : Entities) (env : SlotEnv)
+
+/-- a collected partial value stands for its sub-expression -/
+def PVRel (pv : PartialValue) (x : Expr) : Prop :=
+  match pv with
+  | .value v => evaluate req es env x = .ok v ∧ v.DRT
+  | .residual r => ∀ n', Sem (pinterp σ (.ofConcrete req) (.ofConcrete es) env n' r) (evaluate req es env x)
+
+/-- first pass over a list of sub-expressions, each of which is interpreted soundly -/
+theorem collect_sound (go : Expr → PRes) (xs : List Expr)
+    (h : ∀ x, x ∈ xs → Sound σ req es env (NR x) (evaluate req es env x) (go x)) :
+    match collectPV go xs with
+    | .error r => r = .fuel ∨ r = .panic ∨ (∃ c, r = .err c ∧ ∃ c', evaluateList req es env xs = .error c')
+    | .ok pvs => ListRel (PVRel σ req es env) pvs xs := by
+  induction xs with
+  | nil => exact .nil
+  | cons x xs ih =>
+    have ih' := ih (fun y hy => h y (List.mem_cons_of_mem _ hy))
+    have hx := h x (List.mem_cons_self ..)
+    simp only [collectPV]
+    cases hgx : go x with
+    | fuel => exact Or.inl rfl
+    | panic => exact Or.inr (Or.inl rfl)
+    | err c =>
+      rw [hgx] at hx
+      obtain ⟨c', hc'⟩ := hx
+      exact Or.inr (Or.inr ⟨c, rfl, c', by simp [evaluateList, hc']⟩)
+    | val v =>
+      rw [hgx] at hx
+      simp only
+      cases hc : collectPV go xs with
+      | error r =>
+        rw [hc] at ih'
+        simp only [Except.map]
+        rcases ih' with h1 | h1 | ⟨c, h1, c', h2⟩
+        · exact Or.inl h1
+        · exact Or.inr (Or.inl h1)
+        · exact Or.inr (Or.inr ⟨c, h1, c', by simp [evaluateList, hx.1, h2]⟩)
+      | ok pvs =>
+        rw [hc] at ih'
+        simp only [Except.map]
+        exact .cons hx ih'
+    | res r =>
+      rw [hgx] at hx
+      simp only
+      cases hc : collectPV go xs with
+      | error r0 =>
+        rw [hc] at ih'
+        simp only [Except.map]
+        rcases ih' with h1 | h1 | ⟨c, h1, c', h2⟩
+        · exact Or.inl h1
+        · exact Or.inr (Or.inl h1)
+        · refine Or.inr (Or.inr ⟨c, h1, ?_⟩)
+          cases hev : evaluate req es env x with
+          | error c3 => exact ⟨c3, by simp [evaluateList, hev]⟩
+          | ok v => exact ⟨c', by simp [evaluateList, hev, h2]⟩
+      | ok pvs =>
+        rw [hc] at ih'
+        simp only [Except.map]
+        exact .cons hx.2.2 ih'
+
+theorem pvrel_values {vs : List Value} {xs : List Expr} (h : ListRel (PVRel σ req es env) (vs.map PartialValue.value) xs) :
+    evaluateList req es env xs = .ok vs ∧ ∀ v, v ∈ vs → v.DRT := by
+  induction vs generalizing xs with
+  | nil => cases h; exact ⟨rfl, by simp⟩
+  | cons v vs ih =>
+    cases h with
+    | cons h1 h2 =>
+      obtain ⟨he, hd⟩ := ih h2
+      refine ⟨by simp [evaluateList, h1.1, he], ?_⟩
+      intro w hw
+      rcases List.mem_cons.mp hw with rfl | hw
+      · exact h1.2
+      · exact hd w hw
+
+theorem pvrel_asExpr {pvs : List PartialValue} {xs : List Expr} (h : ListRel (PVRel σ req es env) pvs xs) :
+    ListRel (fun r x => ∀ n, Sem (pinterp σ (.ofConcrete req) (.ofConcrete es) env n r) (evaluate req es env x))
+      (pvs.map PartialValue.asExpr) xs := by
+  induction h with
+  | nil => exact .nil
+  | @cons pv x pvs xs h1 _ ih =>
+    refine .cons ?_ ih
+    cases pv with
+    | value v =>
+      obtain ⟨he, hd⟩ := h1
+      rw [he]; exact sem_toExpr hd _ _ _ _
+    | residual r => exact h1
+
+/-! ### records -/
+
+/-- a collected component of a record stands for the component of the record constructor -/
+def PVRelKV (pk : String × PartialValue) (xk : String × Expr) : Prop :=
+  pk.1 = xk.1 ∧ PVRel σ req es env pk.2 xk.2
+
+theorem evaluateKVs_error_head {k : String} {x : Expr} {kvs : List (String × Expr)} {c : ErrClass}
+    (he : evaluate req es env x = .error c) : evaluateKVs req es env ((k, x) :: kvs) = .error c := by
+  simp [evaluateKVs, he]
+
+theorem collectKVs_sound (go : Expr → PRes) (kvs : List (String × Expr))
+    (h : ∀ kv, kv ∈ kvs → Sound σ req es env (NR kv.2) (evaluate req es env kv.2) (go kv.2)) :
+    match collectPVKVs go kvs with
+    | .error r => r = .fuel ∨ r = .panic ∨ (∃ c, r = .err c ∧ ∃ c', evaluateKVs req es env kvs = .error c')
+    | .ok pkvs => ListRel (PVRelKV σ req es env) pkvs kvs := by
+  induction kvs with
+  | nil => exact .nil
+  | cons kv kvs ih =>
+    obtain ⟨k, x⟩ := kv
+    have ih' := ih (fun y hy => h y (List.mem_cons_of_mem _ hy))
+    have hx := h (k, x) (List.mem_cons_self ..)
+    simp only at hx
+    simp only [collectPVKVs]
+    cases hgx : go x with
+    | fuel => exact Or.inl rfl
+    | panic => exact Or.inr (Or.inl rfl)
+    | err c =>
+      rw [hgx] at hx
+      obtain ⟨c', hc'⟩ := hx
+      exact Or.inr (Or.inr ⟨c, rfl, c', by simp [evaluateKVs, hc']⟩)
+    | val v =>
+      rw [hgx] at hx
+      simp only
+      cases hc : collectPVKVs go kvs with
+      | error r =>
+        rw [hc] at ih'
+        simp only [Except.map]
+        rcases ih' with h1 | h1 | ⟨c, h1, c', h2⟩
+        · exact Or.inl h1
+        · exact Or.inr (Or.inl h1)
+        · exact Or.inr (Or.inr ⟨c, h1, c', by simp [evaluateKVs, hx.1, h2]⟩)
+      | ok pvs =>
+        rw [hc] at ih'
+        simp only [Except.map]
+        exact .cons ⟨rfl, hx⟩ ih'
+    | res r =>
+      rw [hgx] at hx
+      simp only
+      cases hc : collectPVKVs go kvs with
+      | error r0 =>
+        rw [hc] at ih'
+        simp only [Except.map]
+        rcases ih' with h1 | h1 | ⟨c, h1, c', h2⟩
+        · exact Or.inl h1
+        · exact Or.inr (Or.inl h1)
+        · refine Or.inr (Or.inr ⟨c, h1, ?_⟩)
+          cases hev : evaluate req es env x with
+          | error c3 => exact ⟨c3, by simp [evaluateKVs, hev]⟩
+          | ok v => exact ⟨c', by simp [evaluateKVs, hev, h2]⟩
+      | ok pvs =>
+        rw [hc] at ih'
+        simp only [Except.map]
+        exact .cons ⟨rfl, hx.2.2⟩ ih'
+
+theorem pvrelKV_values {pkvs : List (String × PartialValue)} {kvs : List (String × Expr)}
+    (h : ListRel (PVRelKV σ req es env) pkvs kvs) :
+    ∀ {vs : List Value}, pkvs.map (·.2) = vs.map PartialValue.value →
+      evaluateKVs req es env kvs = .ok ((pkvs.map (·.1)).zip vs) ∧ ∀ v, v ∈ vs → v.DRT := by
+  induction h with
+  | nil =>
+    intro vs hv
+    cases vs with
+    | nil => exact ⟨rfl, by simp⟩
+    | cons v vs => simp at hv
+  | @cons pk xk pkvs kvs h1 _ ih =>
+    intro vs hv
+    obtain ⟨k, pv⟩ := pk
+    obtain ⟨k', x⟩ := xk
+    obtain ⟨hk, hr⟩ := h1
+    simp only at hk hr
+    subst hk
+    cases vs with
+    | nil => simp at hv
+    | cons v vs =>
+      simp only [List.map_cons, List.cons.injEq] at hv
+      obtain ⟨hpv, hrest⟩ := hv
+      subst hpv
+      obtain ⟨he, hd⟩ := ih hrest
+      refine ⟨by simp [evaluateKVs, hr.1, he], ?_⟩
+      intro w hw
+      rcases List.mem_cons.mp hw with rfl | hw
+      · exact hr.2
+      · exact hd w hw
+
+theorem pvrelKV_asExpr {pkvs : List (String × PartialValue)} {kvs : List (String × Expr)}
+    (h : ListRel (PVRelKV σ req es env) pkvs kvs) :
+    ListRel (fun rk xk => rk.1 = xk.1 ∧
+        ∀ n, Sem (pinterp σ (.ofConcrete req) (.ofConcrete es) env n rk.2) (evaluate req es env xk.2))
+      ((pkvs.map (·.1)).zip ((pkvs.map (·.2)).map PartialValue.asExpr)) kvs := by
+  induction h with
+  | nil => exact .nil
+  | @cons pk xk pkvs kvs h1 _ ih =>
+    obtain ⟨k, pv⟩ := pk
+    obtain ⟨hk, hr⟩ := h1
+    simp only [List.map_cons, List.zip_cons_cons]
+    refine .cons ⟨hk, ?_⟩ ih
+    cases pv with
+    | value v =>
+      obtain ⟨he, hd⟩ := hr
+      simp only [PartialValue.asExpr]
+      rw [he]; exact sem_toExpr hd _ _ _ _
+    | residual r => exact hr
+
+end
+
+/-! ### canonical records round-trip -/
+
+open CJson in
+theorem str_lt_of_not (a b : String) (h1 : ¬ a < b) (h2 : a ≠ b) : b < a := by
+  have h3 : b ≤ a := String.not_lt.mp h1
+  exact Classical.byContradiction fun hn => h2 (String.le_antisymm (String.not_lt.mp hn) h3)
+
+theorem mem_insertKV {α} {k : String} {v : α} {acc : List (String × α)} {p : String × α}
+    (h : p ∈ insertKV k v acc) : p = (k, v) ∨ p ∈ acc := by
+  induction acc with
+  | nil => simp [insertKV] at h; exact Or.inl h
+  | cons q acc ih =>
+    obtain ⟨k', v'⟩ := q
+    simp only [insertKV] at h
+    split at h
+    · rcases List.mem_cons.mp h with h | h
+      · exact Or.inl h
+      · exact Or.inr h
+    · split at h
+      · rcases List.mem_cons.mp h with h | h
+        · exact Or.inl h
+        · exact Or.inr (List.mem_cons_of_mem _ h)
+      · rcases List.mem_cons.mp h with h | h
+        · exact Or.inr (h ▸ List.mem_cons_self ..)
+        · rcases ih h with h | h
+          · exact Or.inl h
+          · exact Or.inr (List.mem_cons_of_mem _ h)
+
+theorem insertKV_sorted {α} (k : String) (v : α) (acc : List (String × α)) (hs : CJson.Sorted (acc.map Prod.fst)) :
+    CJson.Sorted ((insertKV k v acc).map Prod.fst) := by
+  induction acc with
+  | nil => simp [insertKV, CJson.Sorted]
+  | cons q acc ih =>
+    obtain ⟨k', v'⟩ := q
+    simp only [List.map_cons, CJson.Sorted] at hs
+    simp only [insertKV]
+    split
+    · rename_i hlt
+      simp only [List.map_cons, CJson.Sorted]
+      refine ⟨?_, hs⟩
+      intro x hx
+      rcases List.mem_cons.mp hx with rfl | hx
+      · exact hlt
+      · exact String.lt_trans hlt (hs.1 x hx)
+    · rename_i hnlt
+      split
+      · rename_i heq
+        have : k = k' := by simpa using heq
+        subst this
+        simp only [List.map_cons, CJson.Sorted]
+        exact hs
+      · rename_i hne
+        have hne' : k ≠ k' := by simpa using hne
+        have hlt : k' < k := str_lt_of_not k k' hnlt hne'
+        simp only [List.map_cons, CJson.Sorted]
+        refine ⟨?_, ih hs.2⟩
+        intro x hx
+        obtain ⟨p, hp, rfl⟩ := List.mem_map.mp hx
+        rcases mem_insertKV hp with rfl | hp
+        · exact hlt
+        · exact hs.1 _ (List.mem_map_of_mem hp)
+
+theorem foldl_insertKV_props (kvs : List (String × Value)) : ∀ (acc : List (String × Value)),
+    CJson.Sorted (acc.map Prod.fst) →
+    CJson.Sorted ((kvs.foldl (fun acc kv => insertKV kv.1 kv.2 acc) acc).map Prod.fst) ∧
+    ∀ p, p ∈ kvs.foldl (fun acc kv => insertKV kv.1 kv.2 acc) acc → p ∈ acc ∨ p ∈ kvs := by
+  induction kvs with
+  | nil => intro acc hs; exact ⟨hs, fun p hp => Or.inl hp⟩
+  | cons kv kvs ih =>
+    intro acc hs
+    simp only [List.foldl_cons]
+    obtain ⟨h1, h2⟩ := ih (insertKV kv.1 kv.2 acc) (insertKV_sorted _ _ _ hs)
+    refine ⟨h1, ?_⟩
+    intro p hp
+    rcases h2 p hp with h | h
+    · rcases mem_insertKV h with h | h
+      · exact Or.inr (h ▸ List.mem_cons_self ..)
+      · exact Or.inl h
+    · exact Or.inr (List.mem_cons_of_mem _ h)
+
+theorem DRTKVs_of_forall {R : List (String × Value)} (h : ∀ p, p ∈ R → p.2.DRT) : Value.DRTKVs R := by
+  induction R with
+  | nil => trivial
+  | cons p R ih =>
+    obtain ⟨k, v⟩ := p
+    simp only [Value.DRTKVs]
+    exact ⟨h (k, v) (List.mem_cons_self ..), ih (fun q hq => h q (List.mem_cons_of_mem _ hq))⟩
+
+theorem collect_toExprKVs (f : Expr → PRes) (R : List (String × Value))
+    (h : ∀ p, p ∈ R → f p.2.toExpr = .fuel ∨ f p.2.toExpr = .val p.2) :
+    collectPVKVs f (Value.toExprKVs R) = .error .fuel ∨
+    collectPVKVs f (Value.toExprKVs R) = .ok (R.map (fun kv => (kv.1, PartialValue.value kv.2))) := by
+  induction R with
+  | nil => right; rfl
+  | cons p R ih =>
+    obtain ⟨k, w⟩ := p
+    simp only [Value.toExprKVs, collectPVKVs]
+    rcases h (k, w) (List.mem_cons_self ..) with hw | hw
+    · left; simp only at hw; rw [hw]
+    · simp only at hw
+      rw [hw]
+      rcases ih (fun q hq => h q (List.mem_cons_of_mem _ hq)) with hc | hc
+      · left; rw [hc]; rfl
+      · right; rw [hc]; rfl
+
+/-- a record with strictly increasing keys and round-tripping components round-trips -/
+theorem RT_record {R : List (String × Value)} (hs : CJson.Sorted (R.map Prod.fst)) (h : ∀ p, p ∈ R → RT p.2) :
+    RT (.record R) := by
+  intro m req es env n
+  cases n with
+  | zero => left; simp [pinterp]
+  | succ n =>
+    simp only [Value.toExpr, pinterp]
+    rcases collect_toExprKVs (pinterp m req es env n) R (fun p hp => h p hp m req es env n) with hc | hc
+    · left; rw [hc]
+    · right
+      rw [hc]
+      have h1 : (R.map (fun kv => (kv.1, PartialValue.value kv.2))).map (·.2) = (R.map Prod.snd).map PartialValue.value := by
+        simp [List.map_map, Function.comp_def]
+      have h2 : (R.map (fun kv => (kv.1, PartialValue.value kv.2))).map (·.1) = R.map Prod.fst := by
+        simp [List.map_map, Function.comp_def]
+      simp only [h1, h2, splitPV_values, zip_fst_snd]
+      have := CJson.foldl_insertKV_sorted R [] (by simpa using hs)
+      simp only [List.nil_append] at this
+      rw [this]
+
+/-- the value of a record constructor whose components round-trip deeply round-trips deeply -/
+theorem record_DRT (kvs : List (String × Value)) (h : ∀ p, p ∈ kvs → p.2.DRT) :
+    (Value.record (kvs.foldl (fun acc kv => insertKV kv.1 kv.2 acc) [])).DRT := by
+  obtain ⟨hs, hm⟩ := foldl_insertKV_props kvs [] (by simp [CJson.Sorted])
+  have hall : ∀ p, p ∈ kvs.foldl (fun acc kv => insertKV kv.1 kv.2 acc) [] → p.2.DRT := by
+    intro p hp
+    rcases hm p hp with h' | h'
+    · cases h'
+    · exact h p h'
+  simp only [Value.DRT]
+  exact ⟨RT_record hs (fun p hp => (hall p hp).rt), DRTKVs_of_forall hall⟩
 
 end Cedar
